@@ -76,6 +76,8 @@ NvReadNvIndexInfo(
 		  );
 UINT32								// libtpms added begin
 NvObjectToBuffer(OBJECT *object, BYTE *buffer, UINT32 size);	// libtpms added end
+TPM_RC NvCheckEvictObjects(void);			// libtpms added
+
 void
 NvReadObject(
 	     NV_REF           ref,           // IN: points to NV where index is located
